@@ -45,7 +45,8 @@ def scenarios(draw):
                      "assign": [src.int(0, nfiles - 1) for _ in idx], "labels": src.bool(0.5),
                      # experiments differ in what IsoQuant derives from the data itself: number of unaligned reads and
                      # share of polyA-tailed reads (the `auto` polyA requirement is decided per experiment)
-                     "unmapped": src.choice([0, 0, 1, 2, 5]), "tails": src.choice(["as_is", "as_is", "all", "none"])})
+                     "unmapped": src.choice([0, 0, 1, 2, 5]), "tails": src.choice(["as_is", "as_is", "all", "none"]),
+                     "numeric_labels": src.bool(0.2)})
     # experiment names as given by the user: usually distinct; sometimes repeated or of the form <prefix><index> that
     # IsoQuant itself uses when it renames a repeated name
     if src.bool(0.25):
@@ -132,6 +133,8 @@ def yaml_for(exps, files, path):
         ent = {"name": e.get("given", e["name"]), "long read files": files[e["name"]]}
         if e["labels"]:
             ent["labels"] = ["%s_rep%d" % (e["name"], i) for i in range(len(files[e["name"]]))]
+            if e.get("numeric_labels"):
+                ent["labels"] = [10 * i + 3 for i in range(len(files[e["name"]]))]     # YAML integers (time points, ...)
         doc.append(ent)
     with open(path, "w") as f:
         json.dump(doc, f)          # JSON is YAML
